@@ -454,9 +454,12 @@ def rule_seed_out(ctx) -> None:
     lab_args = {src(c.args[1]) for c in walk_no_defs(fn.node) if isinstance(c, ast.Call) and call_tail(c) == "_match_keywords" and len(c.args) > 1}
     apps = [x for x in walk_no_defs(fn.node) if isinstance(x, ast.Call) and call_tail(x) == "append" and src(x.func.value) in lab_args]
     # the list may be built by a helper (`labels = _collect_labels(g)`): the same shape is required of the list the helper returns
-    for d in ctx.rd(fn).all_defs:
-        if d.kind == "assign" and d.name in lab_args and isinstance(d.value, ast.Call):
-            r = ctx.prog.callee(fn, d.value)
+    _builders = [d.value for d in ctx.rd(fn).all_defs if d.kind == "assign" and d.name in lab_args and isinstance(d.value, ast.Call)]
+    # ... or passed straight through: _match_keywords(text, _seed_phrases(g))
+    _builders += [c.args[1] for c in walk_no_defs(fn.node) if isinstance(c, ast.Call) and call_tail(c) == "_match_keywords" and len(c.args) > 1 and isinstance(c.args[1], ast.Call)]
+    for _bv in _builders:
+        if True:
+            r = ctx.prog.callee(fn, _bv)
             if r is not None and r[0] == "func" and ctx.prog.has_func(r[1]):
                 h = ctx.func(r[1])
                 rn = {x.value.id for x in walk_no_defs(h.node) if isinstance(x, ast.Return) and isinstance(x.value, ast.Name)}
